@@ -215,26 +215,31 @@ Section Editor.
   (* ---------- reader (tty/unix.rs PosixRawReader) ---------- *)
 
   (* next_char: skips to the next chunk when the current one is exhausted *)
-  (* characters: messages lying in the stream are stepped over (a raw read inside a key sequence does not
-     look at the message pipe) *)
+  (* characters: a raw read (inside a key sequence, an incremental search, a completion) does not look at the
+     message pipe: messages lying in the stream are stepped over and STAY there, in order, in front of what has not
+     been read yet -- they are shown when the main loop waits again (drain_prints) *)
   Fixpoint take_in_chunk (ch : list inchar) : option (inchar * list inchar) :=
     match ch with
     | [] => None
-    | Print _ :: t => take_in_chunk t
+    | Print m :: t => match take_in_chunk t with
+                      | Some (c, t') => Some (c, Print m :: t')
+                      | None => None
+                      end
     | c :: t => Some (c, t)
     end.
-  Fixpoint take_first (rest : list (list inchar)) : option (inchar * istream) :=
+  (* [pending]: chunks already passed that held messages only *)
+  Fixpoint take_first (pending : list inchar) (rest : list (list inchar)) : option (inchar * istream) :=
     match rest with
     | [] => None
     | ch :: rest' => match take_in_chunk ch with
-                     | Some (c, t) => Some (c, mkIn t rest')
-                     | None => take_first rest'
+                     | Some (c, t) => Some (c, mkIn (pending ++ t) rest')
+                     | None => take_first (pending ++ ch) rest'
                      end
     end.
   Definition take_char (cur : list inchar) (rest : list (list inchar)) : option (inchar * istream) :=
     match take_in_chunk cur with
     | Some (c, t) => Some (c, mkIn t rest)
-    | None => take_first rest
+    | None => take_first cur rest
     end.
   (* the message, if any, that is next in the stream (what select() reports before the next key) *)
   Fixpoint peek_first (rest : list (list inchar)) : option (str * istream) :=
